@@ -989,8 +989,13 @@ impl<'a> World<'a> {
             Err(e) => return out.fail(format!("registry load: {e}")),
         };
         if !reg.nodes.is_empty() {
-            // status_report -> refresh_node_registry; full_refresh=false here (see assumptions)
-            if let Err(e) = refresh_node_registry(&mut reg, &self.os, false, false, false).await {
+            // status_report -> refresh_node_registry with full_refresh = true, as `antctl status` does; the RPC client
+            // the refresh builds internally is the simulated one (guarded factory seam in ant-node-manager)
+            let os = self.os.clone();
+            ant_node_manager::verif::set_rpc_factory(Some(Box::new(move |addr| Box::new(SimRpc { os: os.clone(), addr }))));
+            let r = refresh_node_registry(&mut reg, &self.os, false, true, false).await;
+            ant_node_manager::verif::set_rpc_factory(None);
+            if let Err(e) = r {
                 return out.fail(format!("refresh: {e}"));
             }
             out.refreshed = true;
